@@ -110,7 +110,7 @@ def behaviours(kind, weighted, tier, seed):
 
 def run_container(prop, kind, tier, seed, cc=False, own_clauses=None, foreign=CC_CLAUSES, plan=None,
                   res=None, finish=True, do_explore=True, queries=True, full=True, scale=1.0,
-                  exhaustive_derive=True, own_ops=None, always_own=(), extra_behaviours=None, on_traces=None):
+                  exhaustive_derive=True, own_ops=None, always_own=(), extra_behaviours=None, on_traces=None, extra_traces=None):
     """own_clauses: only these clause names are verdict-bearing for `prop`;
     own_ops: only rejections on events of these call kinds (or with a clause in always_own)"""
     res = res or Result(prop, tier, seed, "model_checking")
@@ -139,7 +139,7 @@ def run_container(prop, kind, tier, seed, cc=False, own_clauses=None, foreign=CC
             per_origin[origin] = per_origin.get(origin, 0) + 1
         t1 = time.time()
         for n, lst in by_n.items():
-            fams = ("ident", "sparse", "str", "zero")
+            fams = ("ident", "sparse", "str", "zero", "big", "neg", "long")
             traces, meta = C.replay_many(kind, weighted, [o for o, _ in lst], n, families=fams,
                                          seed=seed + n, full=full, cc=cc, copies=True, queries=queries,
                                          plan=plan, exhaustive_derive=exhaustive_derive)
@@ -150,6 +150,10 @@ def run_container(prop, kind, tier, seed, cc=False, own_clauses=None, foreign=CC
             all_traces += traces
             all_meta += meta
         trep += time.time() - t1
+    if extra_traces:
+        tr_, me_ = extra_traces(kind, tier, seed)
+        all_traces += tr_
+        all_meta += me_
     if on_traces:
         on_traces(res, kind, all_traces, all_meta)
     t1 = time.time()
@@ -209,8 +213,12 @@ def replay_container(prop, path):
     ra = dict(p.get("replay_args") or {})
     if ra.get("plan"):
         ra["plan"] = {k: (tuple(v) if isinstance(v, list) else v) for k, v in ra["plan"].items()}
-    r = C.Replayer(p["kind"], p["weighted"], p["n"], p["family"], seed=p["replay_seed"], **ra)
-    trace = r.run(p["calls"])
+    if p.get("origin") == "weighted-unweighted-twins":
+        r = C.Replayer(p["kind"], True, p["n"], p["family"], seed=p["replay_seed"], queries=False, plan={"hash": 1.0})
+        trace = r.run_twins(p["calls"])
+    else:
+        r = C.Replayer(p["kind"], p["weighted"], p["n"], p["family"], seed=p["replay_seed"], **ra)
+        trace = r.run(p["calls"])
     v = C.validate(p["kind"], [trace], procs=1)
     wanted = set(rp["signature"].get("clauses", []))
     hit = [(l, f) for (_, l, f) in v["rejects"] if wanted & set(f)]
